@@ -65,7 +65,7 @@ Elementwise(op) == op \in {"add","sub","neg","smul","elementwise"}
 Arity(op) == IF op \in {"neg","smul","fastevolve"} THEN 1 ELSE 2
 
 NoAct == [name |-> "none", t |-> NoVec, a |-> NoVec, b |-> NoVec, op |-> "", w |-> "", d |-> 0, e |-> 0, c |-> 0,
-          arv |-> FALSE, brv |-> FALSE, fail |-> 0]
+          arv |-> FALSE, brv |-> FALSE, fail |-> 0, kinds |-> <<>>]
 
 \* write patterns: c = 1,3,.. dense integer Hermitian; c even: integer diagonal (usable as evolution operator)
 WriteVal(c,d) == IF c % 2 = 0 THEN MDiagInt([i \in 1..d |-> (i * (c \div 2)) % 4], d) ELSE Pattern(c,d)
@@ -370,6 +370,68 @@ Next ==
           AssignExpr(t, w, x.op, a, IF Arity(x.op) = 1 THEN a ELSE b, x.arv, x.brv, 1, f)
      \/ ClearCache
 Spec == Init /\ [][Next]_vars
+
+--------------------------------------------------------------------------
+\* Prepared pools for the one-step shape / guard explorations (C09, C14): every vector of the pool is
+\* dead, empty, self-owned of the small or the large dimension, or bound to user buffer 1 (small) or 2 (large).
+\* The driver builds the same pool with ordinary calls (constructor, then Write), which are validated as such.
+ShapeKinds == {"dead","empty","ownS","ownL","extS","extL"}
+DimS == 2
+DimL == 3
+VecList == CHOOSE q \in [1..Cardinality(Vecs) -> Vecs] : \A i, j \in 1..Cardinality(Vecs) : i # j => q[i] # q[j]
+Ord(v) == CHOOSE i \in 1..Cardinality(Vecs) : VecList[i] = v
+KindDim(k) == IF k \in {"ownS","extS"} THEN DimS ELSE IF k \in {"ownL","extL"} THEN DimL ELSE 0
+KindExt(k) == IF k = "extS" THEN 1 ELSE 2
+SetupC(v) == IF Ord(v) = 1 THEN 2 ELSE 2*Ord(v) + 1       \* first vector diagonal (usable as evolution operator)
+Setup(kinds) ==
+  LET owners == {v \in Vecs : kinds[v] \in {"ownS","ownL"}}
+      bid(v) == Cardinality({u \in owners : Ord(u) <= Ord(v)})
+      lastOn(e) == LET us == {v \in Vecs : kinds[v] \in {"extS","extL"} /\ KindExt(kinds[v]) = e} IN
+                   IF us = {} THEN NoVec ELSE CHOOSE v \in us : \A u \in us : Ord(u) <= Ord(v)
+      nv == [v \in Vecs |->
+              CASE kinds[v] = "dead" -> DeadVec
+                [] kinds[v] = "empty" -> EmptyVec
+                [] kinds[v] \in {"ownS","ownL"} -> [live |-> TRUE, dim |-> KindDim(kinds[v]), loc |-> BlkLoc(bid(v)), owns |-> TRUE, ext |-> FALSE]
+                [] OTHER -> [live |-> TRUE, dim |-> KindDim(kinds[v]), loc |-> ExtLoc(KindExt(kinds[v])), owns |-> FALSE, ext |-> TRUE]]
+      nb == [b \in Blocks |-> IF \E v \in owners : bid(v) = b
+                              THEN LET v == CHOOSE u \in owners : bid(u) = b IN
+                                   [st |-> "owned", dim |-> KindDim(kinds[v]), raw |-> FALSE, val |-> WriteVal(SetupC(v), KindDim(kinds[v]))]
+                              ELSE FreeBlk]
+      ne == [e \in Exts |-> IF lastOn(e) = NoVec THEN NoBuf
+                            ELSE [dim |-> KindDim(kinds[lastOn(e)]), val |-> WriteVal(SetupC(lastOn(e)), KindDim(kinds[lastOn(e)]))]]
+  IN /\ nops = 0
+     /\ vec' = nv /\ blk' = nb /\ ebuf' = ne /\ cache' = cache /\ hev' = {} /\ outcome' = "ok" /\ nops' = 1
+     /\ lastAct' = [A("Setup") EXCEPT !.kinds = [i \in 1..Cardinality(Vecs) |-> kinds[VecList[i]]]]
+
+\* one expression statement from every prepared pool: the full shape product of C09
+NextShape ==
+  \/ \E kinds \in [Vecs -> ShapeKinds] : Setup(kinds)
+  \/ /\ nops = 1
+     /\ \E t \in Vecs, a \in Vecs, b \in Vecs, x \in ExprArgs, w \in {"=","+=","-=","ctor"}, f \in FailSet :
+          AssignExpr(t, w, x.op, a, IF Arity(x.op) = 1 THEN a ELSE b, x.arv, x.brv, 1, f)
+SpecShape == Init /\ [][NextShape]_vars
+
+\* one call with unsupported / mismatched arguments from every prepared pool: the argument window of C14
+BadDims == {1,7,8}
+BadLens == {1,2,3,5,6,7,8,10,12,15,17,24,26,35,37,48,49,50,63,64}
+NextGuard ==
+  \/ \E kinds \in [Vecs -> ShapeKinds] : Setup(kinds)
+  \/ /\ nops = 1
+     /\ \/ \E v \in Vecs, d \in BadDims : NewSized(v,d,0) \/ MakeAligned(v,d,0) \/ (\E e \in Exts : NewExt(v,d,e))
+        \/ \E v \in Vecs, n \in BadLens : NewFromList(v,n,1,0)
+        \/ \E v \in Vecs, d \in Dims, i \in 0..2 : \/ Factory(v,"generator",d,d*d+i)
+                                                    \/ Factory(v,"projector",d,d+i)
+                                                    \/ Factory(v,"posproj",d,d+1+i) \/ Factory(v,"negproj",d,d+1+i)
+        \/ \E v \in Vecs, k \in {"projector","identity","generator","posproj","negproj"}, d \in BadDims : Factory(v,k,d,0)
+        \/ \E t \in Vecs, s \in Vecs : vec[t].dim # vec[s].dim /\
+              (CopyAssign(t,s,0) \/ MoveAssign(t,s) \/ CompoundVec(t,"+=",s) \/ CompoundVec(t,"-=",s)
+               \/ BinaryRead("dot",t,s) \/ BinaryRead("rotateU",t,s))
+        \/ \E t \in Vecs, a \in Vecs, b \in Vecs, op \in {"add","sub","icomm","acomm","evolve","elementwise"}, w \in {"=","+=","-=","ctor"} :
+              Live(a) /\ Live(b) /\ vec[a].dim # vec[b].dim /\ AssignExpr(t, w, op, a, b, FALSE, FALSE, 1, 0)
+SpecGuard == Init /\ [][NextGuard]_vars
+EmitShape == IF nops = 1
+             THEN PrintT(<<"EDGE", ToJson([kinds |-> lastAct.kinds, ord |-> VecList, act |-> [lastAct' EXCEPT !.kinds = <<>>], out |-> outcome'])>>)
+             ELSE TRUE
 
 --------------------------------------------------------------------------
 \* Requirements
